@@ -1064,7 +1064,7 @@ class StructOf(DataType):
 
     def export_value(self, value):
         """returns a python object fit for serialisation"""
-        self.check_type(value)
+        self.check_type(value, True)  # a valid value may lack optional members
         return dict((str(k), self.members[k].export_value(v))
                     for k, v in list(value.items()))
 
